@@ -10,6 +10,7 @@ H = {
     'aead': dict(name='aead', sources=['h_aead.c', 'trng_tape.c']),
     'perm': dict(name='perm', sources=['h_perm.c']),
     'sym': dict(name='sym', sources=['h_sym.c']),
+    'masked': dict(name='masked', sources=['h_masked.c', 'trng_tape.c']),
 }
 
 
